@@ -39,6 +39,8 @@ ACCOUNTS = {
     "carol": ('a\\"b', "pbkdf2_sha1", False, True),  # the 4 characters  a \ " b
     "dis": ("disabled1", "pbkdf2_sha256", True, True),
     "nodir": ("nodirpw", "pbkdf2_sha256", False, False),
+    # an account whose name is not all lower case (the throttle's tables are keyed by the name as sent)
+    "Dan@Example.COM": ("Mixed1", "pbkdf2_sha256", False, True),
 }
 GHOSTS = ["ghost", "root", "alice2", "Alice", "ali"]
 
